@@ -1235,6 +1235,17 @@ func (s *swamp) setMetaForIncrement(treasureObj treasure.Treasure, guardID guard
 	}
 }
 
+// saveMetaIfNotIncremented persists the SetIfExist metadata of an Increment* call whose
+// condition was not met. setMetaForIncrement has already written the metadata (ExpiredAt,
+// UpdatedAt, ...) into the live treasure; the increment path only calls Save when the value is
+// incremented, so without this the new metadata was visible to reads and to the expired-claim
+// paths, but was neither re-indexed nor written to disk and silently vanished on the next reload.
+func (s *swamp) saveMetaIfNotIncremented(treasureObj treasure.Treasure, guardID guard.ID, incremented *bool, err *error) {
+	if !*incremented && *err == nil {
+		treasureObj.Save(guardID)
+	}
+}
+
 func (s *swamp) createMetaForIncrementResponse(treasureObj treasure.Treasure) *IncrementMetadataResponse {
 
 	// create a new metadata response
@@ -1296,6 +1307,7 @@ func (s *swamp) IncrementUint8(key string, i uint8, condition *IncrementUInt8Con
 	case treasure.ContentTypeUint8:
 		if metadataRequestIfExist != nil {
 			s.setMetaForIncrement(treasureObj, guardID, metadataRequestIfExist)
+			defer s.saveMetaIfNotIncremented(treasureObj, guardID, &incremented, &err)
 		}
 	default:
 		return 0, false, nil, errors.New(ErrorValueIsNotInt)
@@ -1370,6 +1382,7 @@ func (s *swamp) IncrementUint16(key string, i uint16, condition *IncrementUInt16
 	case treasure.ContentTypeUint16:
 		if metadataRequestIfExist != nil {
 			s.setMetaForIncrement(treasureObj, guardID, metadataRequestIfExist)
+			defer s.saveMetaIfNotIncremented(treasureObj, guardID, &incremented, &err)
 		}
 	default:
 		return 0, false, nil, errors.New(ErrorValueIsNotInt)
@@ -1443,6 +1456,7 @@ func (s *swamp) IncrementUint32(key string, i uint32, condition *IncrementUInt32
 	case treasure.ContentTypeUint32:
 		if metadataRequestIfExist != nil {
 			s.setMetaForIncrement(treasureObj, guardID, metadataRequestIfExist)
+			defer s.saveMetaIfNotIncremented(treasureObj, guardID, &incremented, &err)
 		}
 	default:
 		return 0, false, nil, errors.New(ErrorValueIsNotInt)
@@ -1515,6 +1529,7 @@ func (s *swamp) IncrementUint64(key string, i uint64, condition *IncrementUInt64
 	case treasure.ContentTypeUint64:
 		if metadataRequestIfExist != nil {
 			s.setMetaForIncrement(treasureObj, guardID, metadataRequestIfExist)
+			defer s.saveMetaIfNotIncremented(treasureObj, guardID, &incremented, &err)
 		}
 	default:
 		return 0, false, nil, errors.New(ErrorValueIsNotInt)
@@ -1587,6 +1602,7 @@ func (s *swamp) IncrementInt8(key string, i int8, condition *IncrementInt8Condit
 	case treasure.ContentTypeInt8:
 		if metadataRequestIfExist != nil {
 			s.setMetaForIncrement(treasureObj, guardID, metadataRequestIfExist)
+			defer s.saveMetaIfNotIncremented(treasureObj, guardID, &incremented, &err)
 		}
 	default:
 		return 0, false, nil, errors.New(ErrorValueIsNotInt)
@@ -1659,6 +1675,7 @@ func (s *swamp) IncrementInt16(key string, i int16, condition *IncrementInt16Con
 	case treasure.ContentTypeInt16:
 		if metadataRequestIfExist != nil {
 			s.setMetaForIncrement(treasureObj, guardID, metadataRequestIfExist)
+			defer s.saveMetaIfNotIncremented(treasureObj, guardID, &incremented, &err)
 		}
 	default:
 		return 0, false, nil, errors.New(ErrorValueIsNotInt)
@@ -1731,6 +1748,7 @@ func (s *swamp) IncrementInt32(key string, i int32, condition *IncrementInt32Con
 	case treasure.ContentTypeInt32:
 		if metadataRequestIfExist != nil {
 			s.setMetaForIncrement(treasureObj, guardID, metadataRequestIfExist)
+			defer s.saveMetaIfNotIncremented(treasureObj, guardID, &incremented, &err)
 		}
 	default:
 		return 0, false, nil, errors.New(ErrorValueIsNotInt)
@@ -1804,6 +1822,7 @@ func (s *swamp) IncrementInt64(key string, i int64, condition *IncrementInt64Con
 	case treasure.ContentTypeInt64:
 		if metadataRequestIfExist != nil {
 			s.setMetaForIncrement(treasureObj, guardID, metadataRequestIfExist)
+			defer s.saveMetaIfNotIncremented(treasureObj, guardID, &incremented, &err)
 		}
 	default:
 		return 0, false, nil, errors.New(ErrorValueIsNotInt)
@@ -1888,6 +1907,7 @@ func (s *swamp) IncrementFloat32(key string, f float32, condition *IncrementFloa
 	case treasure.ContentTypeFloat32:
 		if metadataRequestIfExist != nil {
 			s.setMetaForIncrement(treasureObj, guardID, metadataRequestIfExist)
+			defer s.saveMetaIfNotIncremented(treasureObj, guardID, &incremented, &err)
 		}
 	default:
 		return 0, false, nil, errors.New(ErrorValueIsNotFloat)
@@ -1963,6 +1983,7 @@ func (s *swamp) IncrementFloat64(key string, f float64, condition *IncrementFloa
 	case treasure.ContentTypeFloat64:
 		if metadataRequestIfExist != nil {
 			s.setMetaForIncrement(treasureObj, guardID, metadataRequestIfExist)
+			defer s.saveMetaIfNotIncremented(treasureObj, guardID, &incremented, &err)
 		}
 	default:
 		return 0, false, nil, errors.New(ErrorValueIsNotFloat)
